@@ -98,7 +98,11 @@ class _VariableMap:
         return self._data[k]
 
     def add(self, var: Variable) -> None:
-        self[var].append(var)
+        refs = self[var]
+        # The same reference can be reached more than once, when a partial
+        # template is visited again from a different scope.
+        if not any(v == var and v.span == var.span for v in refs):
+            refs.append(var)
 
     def as_dict(self) -> dict[str, list[Variable]]:
         return self._data
@@ -149,6 +153,9 @@ def analyze(template: BoundTemplate, *, include_partials: bool) -> TemplateAnaly
     # only record global variables so as not to double count locals, filters
     # and tags.
     seen: defaultdict[str, set[Optional[int]]] = defaultdict(set)
+
+    # Names of partial templates we're in the middle of visiting.
+    active: list[str] = []
 
     def _visit(
         node: Node,
@@ -205,13 +212,18 @@ def analyze(template: BoundTemplate, *, include_partials: bool) -> TemplateAnaly
             # If we've seen this partial before but with different arguments,
             # we might want to visit it again but only capture globals.
             _just_globals = partial_name in seen
-            if partial.key in seen[partial_name]:
+            if partial.key in seen[partial_name] and (
+                partial.scope == PartialScope.ISOLATED or partial_name in active
+            ):
                 # We've visited this partial template before with the same
-                # arguments.
+                # arguments and the same (isolated) scope, or we're inside it
+                # right now. A partial that shares its caller's scope is visited
+                # again, recording globals only, as the caller's scope might differ.
                 return
 
             seen[partial_name].add(partial.key)
             partial_name = partial_name or template_name
+            active.append(partial_name)
 
             partial_scope = (
                 _StaticScope(set(partial.in_scope))
@@ -230,6 +242,7 @@ def analyze(template: BoundTemplate, *, include_partials: bool) -> TemplateAnaly
                 )
 
             partial_scope.pop()
+            active.pop()
         else:
             scope.push(set(node.block_scope()))
             for child in node.children(
@@ -270,6 +283,9 @@ async def analyze_async(
 
     # Names of partial templates that have already been analyzed.
     seen: defaultdict[str, set[Optional[int]]] = defaultdict(set)
+
+    # Names of partial templates we're in the middle of visiting.
+    active: list[str] = []
 
     async def _visit(
         node: Node,
@@ -326,13 +342,18 @@ async def analyze_async(
             # If we've seen this partial before but with different arguments,
             # we might want to visit it again but only capture globals.
             _just_globals = partial_name in seen
-            if partial.key in seen[partial_name]:
+            if partial.key in seen[partial_name] and (
+                partial.scope == PartialScope.ISOLATED or partial_name in active
+            ):
                 # We've visited this partial template before with the same
-                # arguments.
+                # arguments and the same (isolated) scope, or we're inside it
+                # right now. A partial that shares its caller's scope is visited
+                # again, recording globals only, as the caller's scope might differ.
                 return
 
             seen[partial_name].add(partial.key)
             partial_name = partial_name or template_name
+            active.append(partial_name)
 
             partial_scope = (
                 _StaticScope(set(partial.in_scope))
@@ -351,6 +372,7 @@ async def analyze_async(
                 )
 
             partial_scope.pop()
+            active.pop()
         else:
             scope.push(set(node.block_scope()))
             for child in await node.children_async(
